@@ -11,6 +11,19 @@
 //                called until it returns false with an empty stream, then the next chunk becomes available
 //   RT  <pri> <pgn> <dst> <src> <time> <datahex>
 //        -> "rt <n> | <pri> <pgn> <dst> <src> <time> <datahex> ..."   (SendInActisenseFormat, then a fresh reader on what was written)
+//   FWD mode=<0..4> src=<addr> en=<0|1> own=<0|1> sys=<0|1> ok=<0|1> t0=<ms> [sf=p,p,..] [fp=p,p,..] | op ; op ; ...
+//        the forwarding path: a tNMEA2000 (scripted CAN driver, virtual clock) whose ForwardStream is a memory stream, ForwardType
+//        fwdt_Actisense; mode = tN2kMode, src = first address (SetMode), en/own/sys/ok = EnableForward / SetForwardOwnMessages /
+//        SetForwardSystemMessages / SetForwardOnlyKnownMessages, sf/fp = ExtendSingleFrameMessages / ExtendFastPacketMessages.
+//        The node is opened and has finished address claiming at t0 (prelude as in h_node.cpp; what the prelude forwarded is dropped).
+//        ops:  R <flags> <pri> <pgn> <dst> <src> <time> <datahex> <at> <idhex:len:datahex,...>
+//                  clock := max(clock, at); the CAN frames go into the driver's receive queue; ParseMessages until the queue is empty
+//              S <flags> <pri> <pgn> <dst> <src> <time> <datahex> <at> <idev> <src_in> <dst_in>
+//                  clock := max(clock, at); SendMsg(tN2kMsg{pri, pgn, Source=src_in, Destination=dst_in, MsgTime=time, data}, idev)
+//              (<flags> = own/known/system as the case generator expects them and the message fields before <at> are what the
+//               generator expects to be forwarded: they are for the model; this harness uses only the frames resp. the SendMsg arguments)
+//        -> "fwd <hex written to the forward stream by this op | -> <n> | <pri> <pgn> <dst> <src> <time> <datahex> ... ; <next op> ..."
+//           n and the messages are what ONE tActisenseReader attached to the forward stream for the whole case reports after the op
 // The received tN2kMsg lives in an exact-size heap object between guard bytes; after every call DataLen and the members behind
 // Data[] are checked ("canary ..." in the result if something was overwritten).  Out of bounds accesses abort (ASan / UBSan bounds).
 #include "hcommon.h"
@@ -18,6 +31,9 @@
 #include "N2kMsg.h"
 #include "N2kStream.h"
 #include "ActisenseReader.h"
+#include "NMEA2000.h"
+#include <deque>
+#include <map>
 
 struct MemStream : public N2kStream {
   std::vector<uint8_t> in; size_t rp = 0, avail = 0;
@@ -92,11 +108,125 @@ static void fill_msg(tN2kMsg &m, const std::vector<std::string> &t, size_t k) {
   m.DataLen = (int)d.size(); if (!d.empty()) memcpy(m.Data, d.data(), d.size());
 }
 
+// ---------------------------------------------------------------------------------------------------------------------------
+// FWD: the forwarding path of tNMEA2000
+struct FwdFrame { unsigned long id; unsigned char len; unsigned char buf[8]; };
+class FwdNode : public tNMEA2000 {
+public:
+  std::deque<FwdFrame> rx;
+  bool CANSendFrame(unsigned long id, unsigned char len, const unsigned char *buf, bool wait_sent) override { return true; }
+  bool CANOpen() override { return true; }
+  bool CANGetFrame(unsigned long &id, unsigned char &len, unsigned char *buf) override {
+    if (rx.empty()) return false;
+    FwdFrame f = rx.front(); rx.pop_front();
+    id = f.id; len = f.len; memcpy(buf, f.buf, 8);
+    return true;
+  }
+};
+
+static unsigned long *fwd_plist(const std::string &v) {
+  std::vector<unsigned long> *l = new std::vector<unsigned long>();   // referenced by the node, not copied
+  std::stringstream ss(v); std::string x;
+  while (std::getline(ss, x, ',')) if (!x.empty()) l->push_back(strtoul(x.c_str(), 0, 10));
+  l->push_back(0);
+  return l->data();
+}
+
+static void run_fwd(const std::string &line) {
+  size_t bar = line.find('|');
+  if (bar == std::string::npos) { printf("badcase\n"); return; }
+  std::vector<std::string> cfg = split(line.substr(3, bar - 3));
+  std::map<std::string, std::string> kv;
+  for (auto &c : cfg) { size_t e = c.find('='); if (e != std::string::npos) kv[c.substr(0, e)] = c.substr(e + 1); }
+  int mode = atoi(kv["mode"].c_str()), src = atoi(kv["src"].c_str());
+  uint64_t t0 = strtoull(kv["t0"].c_str(), 0, 10);
+  if (mode < 0 || mode > 4 || t0 < 1000) { printf("badcase\n"); return; }
+
+  verif_now_ms = t0 - 1000;
+  FwdNode *n = new FwdNode();
+  MemStream *fs = new MemStream();                      // the forward stream
+  n->SetN2kCANSendFrameBufSize(100);
+  if (kv.count("sf")) n->ExtendSingleFrameMessages(fwd_plist(kv["sf"]));
+  if (kv.count("fp")) n->ExtendFastPacketMessages(fwd_plist(kv["fp"]));
+  n->SetMode((tNMEA2000::tN2kMode)mode, (uint8_t)src);
+  n->SetForwardStream(fs);
+  n->SetForwardType(tNMEA2000::fwdt_Actisense);
+  n->EnableForward(kv["en"] == "1");
+  n->SetForwardOwnMessages(kv["own"] == "1");
+  n->SetForwardSystemMessages(kv["sys"] == "1");
+  n->SetForwardOnlyKnownMessages(kv["ok"] == "1");
+  for (int k = 0; k < 700; k++) { n->ParseMessages(); verif_now_ms++; }
+  n->SetHeartbeatIntervalAndOffset(0, 0);
+  n->IsAddressClaimStarted(0);
+  verif_now_ms = t0;
+  fs->out.clear();
+  if (n->OpenState != tNMEA2000::os_Open) { printf("fwd notopen\n"); return; }
+
+  // one reader on the forward stream for the whole case
+  MemStream rs;
+  tActisenseReader *rd = new tActisenseReader();
+  memset(rd->MsgBuf, 0, sizeof rd->MsgBuf);
+  rd->SetDefaultSource(65);
+  rd->SetReadStream(&rs);
+  Guarded *g = (Guarded *)malloc(sizeof(Guarded));
+  memset(g->pre, 0xC3, sizeof g->pre); memset(g->post, 0xC3, sizeof g->post);
+  new (&g->m) tN2kMsg();
+
+  std::string out = "fwd";
+  std::stringstream ops(line.substr(bar + 1)); std::string opstr; bool first = true;
+  while (std::getline(ops, opstr, ';')) {
+    std::vector<std::string> t = split(opstr);
+    if (t.empty()) continue;
+    out += first ? " " : " ; "; first = false;
+    if (t[0] == "R" && t.size() >= 10) {
+      uint64_t at = tounum(t[8]); if (at > verif_now_ms) verif_now_ms = at;
+      std::stringstream fr(t[9]); std::string f1;
+      while (std::getline(fr, f1, ',')) {
+        size_t c1 = f1.find(':'), c2 = f1.find(':', c1 + 1);
+        if (c1 == std::string::npos || c2 == std::string::npos) continue;
+        FwdFrame f; f.id = strtoul(f1.substr(0, c1).c_str(), 0, 16); f.len = (unsigned char)atoi(f1.substr(c1 + 1, c2 - c1 - 1).c_str());
+        std::vector<uint8_t> d = unhex(f1.substr(c2 + 1)); memset(f.buf, 0, 8); for (size_t i = 0; i < d.size() && i < 8; i++) f.buf[i] = d[i];
+        n->rx.push_back(f);
+      }
+      do { n->ParseMessages(); } while (!n->rx.empty());
+    } else if (t[0] == "S" && t.size() >= 12) {
+      uint64_t at = tounum(t[8]); if (at > verif_now_ms) verif_now_ms = at;
+      tN2kMsg m; fill_msg(m, t, 2);
+      m.Source = (unsigned char)tounum(t[10]); m.Destination = (unsigned char)tounum(t[11]);
+      m.SetIsTPMessage(false);
+      n->SendMsg(m, atoi(t[9].c_str()));
+    } else { out += "badop"; continue; }
+    // what this op wrote to the forward stream, and what the reader makes of it
+    out += hex(fs->out.data(), fs->out.size());
+    rs.in.insert(rs.in.end(), fs->out.begin(), fs->out.end()); rs.avail = rs.in.size();
+    fs->out.clear();
+    int cnt = 0; std::string res, canary;
+    for (;;) {
+      g->m.TPMessage = false;
+      bool got = rd->GetMessageFromStream(g->m, true);
+      for (size_t k = 0; k < 16; k++) if (g->pre[k] != 0xC3 || g->post[k] != 0xC3) canary = " canary guard-bytes";
+      if (g->m.TPMessage) canary = " canary TPMessage";
+      if (g->m.DataLen < 0 || g->m.DataLen > tN2kMsg::MaxDataLen) { canary = " canary DataLen"; g->m.DataLen = 0; }
+      if (rd->MsgWritePos < 0 || rd->MsgWritePos > MAX_STREAM_MSG_BUF_LEN) canary = " canary MsgWritePos";
+      if (got) { cnt++; res += msg_text(g->m); continue; }
+      if (rs.rp < rs.avail) continue;
+      break;
+    }
+    char b[32]; snprintf(b, sizeof b, " %d", cnt);
+    out += b; out += res; out += canary;
+  }
+  printf("%s\n", out.c_str());
+  free(g);
+  delete rd;
+  // the node is deliberately not destroyed: tNMEA2000 has no destructor that releases its buffers
+}
+
 int main() {
   std::string line;
   while (std::getline(std::cin, line)) {
     std::vector<std::string> t = split(line);
     if (t.empty()) { printf("skip\n"); fflush(stdout); continue; }
+    if (t[0] == "FWD") { run_fwd(line); fflush(stdout); continue; }
     if (t[0] == "ENC" && t.size() >= 7) {
       tN2kMsg m; fill_msg(m, t, 1);
       MemStream ms;
